@@ -23,14 +23,14 @@ import (
 // directory is judged against it with the same classify() the tamper neighbourhood uses.
 
 type cliOp struct {
-	Kind string `json:"kind"` // new | diff1 | diff2 | hash | t_append | t_remove | t_add | t_sumline | t_rename
+	Kind string `json:"kind"` // new | diff1 | diff2 | hash | t_append | t_remove | t_add | t_sumline | t_rename | t_sumhash
 }
 
 // the directory lives at a relative path whose last element is not "migrations", so that it can also be
 // handed over as a state source through a relative URL (file://proj/db).
 const cliDir = "proj/db"
 
-var cliAlphabet = []cliOp{{"new"}, {"diff1"}, {"diff2"}, {"hash"}, {"t_append"}, {"t_remove"}, {"t_add"}, {"t_sumline"}, {"t_rename"}}
+var cliAlphabet = []cliOp{{"new"}, {"diff1"}, {"diff2"}, {"hash"}, {"t_append"}, {"t_remove"}, {"t_add"}, {"t_sumline"}, {"t_rename"}, {"t_sumhash"}}
 
 const hclS1 = `schema "main" {}
 table "a" {
@@ -190,6 +190,25 @@ func runCLIHistory(h []cliOp, format string) (problems []string, canon string, o
 				return nil, "", false
 			}
 			os.WriteFile(wk.Path(cliDir, migrate.HashFileName), []byte(strings.Join(lines[:len(lines)-1], "\n")+"\n"), 0o644)
+		case "t_sumhash":
+			// one character of the hash of the first file's line (the total line stays as it was).
+			sum, has := before[migrate.HashFileName]
+			lines := strings.Split(strings.TrimRight(sum, "\n"), "\n")
+			if !has || len(lines) < 2 {
+				return nil, "", false
+			}
+			i := strings.Index(lines[1], " h1:")
+			if i < 0 || i+5 >= len(lines[1]) {
+				return nil, "", false
+			}
+			b := []byte(lines[1])
+			if b[i+4] == 'A' {
+				b[i+4] = 'B'
+			} else {
+				b[i+4] = 'A'
+			}
+			lines[1] = string(b)
+			os.WriteFile(wk.Path(cliDir, migrate.HashFileName), []byte(strings.Join(lines, "\n")+"\n"), 0o644)
 		case "t_rename":
 			if len(names) == 0 {
 				return nil, "", false
@@ -223,6 +242,16 @@ func runCLIHistory(h []cliOp, format string) (problems []string, canon string, o
 				if si.Exit == 0 {
 					bad("`schema inspect --url %s` reads the edited directory without a checksum complaint", u)
 				}
+			}
+		}
+		// `migrate lint` checks the integrity of the directory in a step of its own (it does not go through
+		// the validation the other commands share).
+		if _, hasSum := cur[migrate.HashFileName]; hasSum && want == wantErr && len(sqlNames(cur)) > 0 {
+			li := wk.Run(nil, "migrate", "lint", "--dir", dirURL, "--dir-format", format, "--dev-url", "sqlite://dev?mode=memory", "--latest", "1")
+			if li.Exit == 0 {
+				bad("`migrate lint` accepts a directory whose sum does not match: %s", li)
+			} else if !strings.Contains(strings.ToLower(li.Stderr+li.Stdout), "checksum") && !strings.Contains(li.Stderr+li.Stdout, "atlas.sum") {
+				bad("`migrate lint` fails on a directory whose sum does not match without naming the checksum: %s", li)
 			}
 		}
 		os.Remove(wk.Path("db.sqlite"))
